@@ -610,6 +610,25 @@ class Body:
             out.append((self.guard(bi), self._def_term((bi, si, kind, s), 0), bi))
         return out
 
+    def expanded_cases(self, l, limit=64):
+        """local_cases(l) with every phi of a multiply-assigned local inside a case's term split into one case per
+        assignment of that local (guards conjoined, contradictory combinations dropped) - `let x = match ..; f(x)`
+        and `match .. { a => f(a), b => f(b) }` give the same cases"""
+        work = list(self.local_cases(l))
+        out = []
+        while work:
+            g, t, bi = work.pop(0)
+            phis = [x for x in subterms(t) if x[0] == "phi" and len(x) > 2 and x[2] is not None]
+            if not phis or len(out) + len(work) > limit:
+                out.append((g, t, bi))
+                continue
+            ph = phis[0]
+            for g2, t2, bi2 in self.local_cases(ph[2]):
+                gg = dnf_and(g, g2)
+                if gg:
+                    work.append((gg, subst(t, lambda x, ph=ph, t2=t2: t2 if x == ph else None), bi))
+        return out
+
     def rvalue_term(self, rv, depth=0, site=None):
         r = rv["r"]
         if r == "use":
@@ -888,6 +907,49 @@ def simplify_dnf(disj):
                     out2.add(c)
             out = out2
     return frozenset(out)
+
+
+def _consistent(conj):
+    seen = {}
+    for a in conj:
+        if a[0] == "is":
+            k = (a[1], a[3])
+            seen[k] = (seen[k] & a[2]) if k in seen else a[2]
+            if not seen[k]:
+                return False
+        elif a[0] == "bool":
+            if ("bool", a[1], not a[2]) in conj:
+                return False
+    return True
+
+
+def _merge_is(conj):
+    """intersect `is` atoms that test the same place inside one conjunction; None if the intersection is empty"""
+    by = {}
+    rest = set()
+    for a in conj:
+        if a[0] == "is":
+            k = (a[1], a[3])
+            if k in by:
+                by[k] = ("is", a[1], by[k][2] & a[2], a[3], a[4])
+                if not by[k][2]:
+                    return None
+            else:
+                by[k] = a
+        else:
+            rest.add(a)
+    return frozenset(rest | set(by.values()))
+
+
+def dnf_and(g1, g2):
+    """conjunction of two DNFs (contradictory conjunctions dropped; may be empty = false)"""
+    out = set()
+    for c1 in g1:
+        for c2 in g2:
+            c = _merge_is(c1 | c2)
+            if c is not None and _consistent(c):
+                out.add(c)
+    return simplify_dnf(out) if out else frozenset()
 
 
 def merge_atoms(a1, a2):
